@@ -73,7 +73,7 @@ struct Exec {
     // live kernel objects owned by the harness
     std::string tmpdir; pid_t kids[3] = {0, 0, 0}; bool kid_dead[3] = {false, false, false};
     bool task_used[3] = {false, false, false}, task_started[3] = {false, false, false};
-    void live_src_op(const Op &op, Inst *S); void live_fire(const Op &op);
+    void live_src_op(const Op &op, Inst *S); void live_fire(const Op &op); void release_all_tasks();
     void live_setup(); void live_teardown(); bool live_key_elsewhere(Inst *S, int kind, long ki);
     int refused_fd_reg = -1;
     bool harness_closing = false; bool autoclose_pending[8], autoclose_closed[8]; unsigned long harness_ino[8];
